@@ -183,7 +183,9 @@ def main(seed, ncases, driver, out):
             for _ in range(30):
                 E0 = np.diag(P["terms"][(0,) * P["k"]]).real; sel = list(P["fd"]) if not isinstance(P["fd"], dict) else []
                 if P["N"] == 1 and not isinstance(P["fd"], dict): sel = [0]
-                if any(len(set(E0[a] for a in range(P["d"]) if P["blocks"][a] == b)) >= 2 for b in sel): break
+                cross = [abs(E0[a] - E0[b]) for a in range(P["d"]) for b in range(P["d"]) if P["blocks"][a] != P["blocks"][b]]
+                big_ok = not cross or min(cross) / (np.abs(E0).max() + 2.0 ** 17) >= 3e-5      # (every other shift case insists on a problem that takes the large shift)
+                if any(len(set(E0[a] for a in range(P["d"]) if P["blocks"][a] == b)) >= 2 for b in sel) and (big_ok or (c // len(TRANSFORMS)) % 2): break
                 P = problem(rnd, hermitian, needk)
         if tr == "degenerate-rotation":
             # prefer problems in which a fully diagonalised block holds a degenerate level: only there does a rotation inside the level meet the masks
@@ -258,7 +260,8 @@ def main(seed, ncases, driver, out):
                 Q["terms"] = {n: m.conj() for n, m in P["terms"].items()}
                 rel = lambda base, name, n: base[(name, n)].conj()
             elif tr == "shift":
-                cshift = rnd.choice([1.0, -2.5, 0.125, float(2 ** 17), float(2 ** 17), float(2 ** 18)]); z = (0,) * k      # large shifts: level spacings far below 1e-5 of the level values
+                cshift = rnd.choice([1.0, -2.5, 0.125, float(2 ** 17), float(2 ** 17), float(2 ** 18)]); z = (0,) * k
+                if (c // len(TRANSFORMS)) % 2 == 0: cshift = float(2 ** 17)      # large shifts: level spacings far below 1e-5 of the level values
                 E0s = np.diag(P["terms"][z]).real; gaps = [abs(E0s[a] - E0s[b]) for a in range(d) for b in range(d) if P["blocks"][a] != P["blocks"][b]]
                 if gaps and min(gaps) / (np.abs(E0s).max() + abs(cshift)) < 3e-5: cshift = rnd.choice([1.0, -2.5, 0.125, 1024.0])     # keep gap / |energy| above the relative degeneracy threshold 1e-5
                 Q["terms"] = dict(P["terms"]); Q["terms"][z] = P["terms"][z] + cshift * np.eye(d)
